@@ -177,7 +177,16 @@ fn noise_maps(rel: &Relation, out: &mut Vec<(Relation, Vec<(String, f64, Option<
 /// (Box–Muller draws of about +1.7 and −1.1 standard deviations) the two releases of a cell differ — also for a group without rows and
 /// for an aggregate whose WHERE clause keeps nothing, where a NULL-propagating noise expression would release a constant
 pub fn check_noise_applied(out: &mut Outcome, sql: &str, rel: &Relation, data: &crate::data::Data) {
-    let mut maps = vec![]; noise_maps(rel, &mut maps, &mut vec![]);
+    // every Map with a column computed from a random draw scaled by a constant, whatever wraps the draw (clamp, coalesce, cast)
+    fn find(rel: &Relation, out: &mut Vec<(Relation, Vec<(String, f64, Option<f64>)>)>, seen: &mut Vec<*const Relation>) {
+        let p = rel as *const Relation; if seen.contains(&p) { return; } seen.push(p);
+        if let Relation::Map(m) = rel {
+            let cols: Vec<(String, f64, Option<f64>)> = m.named_exprs().into_iter().filter(|(_, e)| ir::has_random(e)).filter_map(|(n, e)| ir::noise_sigma(e).map(|s| (n.to_string(), s, None))).collect();
+            if !cols.is_empty() { out.push((rel.clone(), cols)); }
+        }
+        for i in rel.inputs() { find(i, out, seen); }
+    }
+    let mut maps = vec![]; find(rel, &mut maps, &mut vec![]);
     let (da, db) = (data.load(RandomMode::Const(0.1)), data.load(RandomMode::Const(0.4)));
     for (m, cols) in &maps {
         let (ra, rb) = match (da.run(m), db.run(m)) { (Ok(a), Ok(b)) => (a, b), _ => return };
